@@ -485,7 +485,7 @@ def eval_corr_static(ins, reals, drv, postol=Fr(1, 10 ** 9)):
                             'visits inside Blocks::split violates an invariant of Vpsc/StaticRefB.v (mask: 1 all sat at split entry, 2 only the '
                             'left half moved (left), 32 out-heap root is the most violated out-constraint, 64 violated out-constraints in heap, '
                             '128 all sat after mergeRight, 512 split constraint active inside its block, 1024 pair invariant J in mergeLeft, '
-                            '2048 invariant I2 in mergeRight, 4096 in-heap root most violated in split.mergeLeft, 8192 violated in-constraints in heap, 16384 mode A (r not merged: M only moved left), 32768 all sat after mergeLeft when r was not merged)', 'refine': rv}
+                            '2048 invariant I2 in mergeRight, 4096 in-heap root most violated in split.mergeLeft, 8192 violated in-constraints in heap, 16384 mode A (r not merged: M only moved left), 32768 all sat after mergeLeft when r was not merged, 65536 heap / time-stamp invariant HW of Vpsc/StaticInHeap.v in split.mergeLeft)', 'refine': rv}
     for r in reals:
         k = r['op']
         m = ts.get(k)
